@@ -67,11 +67,24 @@ def check(ctx, n, r, s, tag, detail=True):
             except Exception:
                 pass
         ctx.count("out_of_domain_calls_interleaved", 5)
+    if detail and _NOISE["i"] % 2 == 0:
+        # the same s with r in a relation to it (r = s, r = n - s, r = min(s, n - s), r + s = n +- 1): the encoder treats r as opaque
+        for r_rel in {s, n - s, want_s, (n - s + 1) % n or 1, (n - s - 1) % n or 1}:
+            if 1 <= r_rel < n and r_rel != r:
+                check(ctx, n, r_rel, s, tag + "|r_rel", detail=False)
     for ename, canon, plain, dec in ENCODERS:
         key = "%s|%s|%s|%d" % (ename, tag, side, dist.bit_length()) if detail else None
         ctx.case(cls, key=key, nontrivial=detail, sample=dict(encoder=ename, n=n, r=r, s=s, s_minus_half=s - half, expected_s=want_s) if ctx.want(cls) else None)
         try:
-            out = canon(r, s, n)
+            style = _NOISE["i"] % 5
+            if style == 1:            # arguments by keyword: the documented parameter names
+                out = canon(r, s, order=n)
+                ctx.count("keyword_calls")
+            elif style == 3:
+                out = canon(r=r, s=s, order=n)
+                ctx.count("keyword_calls")
+            else:
+                out = canon(r, s, n)
             want = plain(r, want_s, n)
         except Exception as e:
             ctx.violation("canonize_raises", "sigencode_%s_canonize(%d,%d,%d) raised %s" % (ename, r, s, n, type(e).__name__), dict(n=n, r=r, s=s), _rp(ename, r, s, n))
